@@ -68,7 +68,8 @@ def qualtype(n):
 
 
 def is_float_type(t):
-    return bool(re.search(r"\b(double|float|LDBLE)\b", t)) or "value_type" in t
+    t = re.sub(r"\bconst\b", "", t).strip()
+    return t in ("double", "float", "LDBLE", "long double") or t.endswith("value_type")
 
 
 def lit_text(n, srcbytes):
